@@ -316,7 +316,7 @@ def ops_strategy():
         st.tuples(st.just("iadd"), sel, sel),
         st.tuples(st.just("newback"), st.sampled_from(["int", "bytes", "list"]), st.booleans(), val),
         st.tuples(st.just("bad_index"), sel, st.sampled_from(["getbit", "setbit", "getslice", "setslice"]),
-                  st.sampled_from(["-1", "w", "w+k", "-k"]), sel),
+                  st.sampled_from(["-1", "w", "w+k", "-k", "huge", "-huge"]), sel),
         st.tuples(st.just("bad_step"), sel, sel, st.sampled_from([2, -1, 0, 3])),
         st.tuples(st.just("bad_key"), sel, st.integers(0, len(BAD_KEYS) - 1), st.booleans()),
         st.tuples(st.just("bit_no_truth"), sel, sel, st.booleans()),
@@ -330,6 +330,7 @@ def ops_strategy():
         st.tuples(st.just("bad_newback"), st.sampled_from(["neg1", "neg", "over", "over2", "bytes2", "bytes0", "float",
                                                            "str", "none"]), sel, st.booleans()),
         st.tuples(st.just("bad_add"), sel, st.integers(0, len(NON_FRAMES) - 1)),
+        st.tuples(st.just("assign"), sel, st.sampled_from(["neg1", "neg", "over", "over2", "type", "legal"]), sel),
         st.tuples(st.just("observe"), sel),
     )
     return st.lists(op, min_size=1, max_size=40)
@@ -470,7 +471,9 @@ def _interp(ops):
                 f, m, _ = pick(op[1])
                 w = m.w
                 k = 1 + op[4] % 40
-                bad = {"-1": -1, "w": w, "w+k": w + k, "-k": -k}[op[3]]
+                # "huge": indices far beyond anything a frame can have (sys.maxsize, 2**64, ...) are out of range too
+                huge = [2 ** 63 - 1, 2 ** 63, 2 ** 64, 2 ** 100, 10 ** 30, 2 ** 31, 2 ** 32][k % 7]
+                bad = {"-1": -1, "w": w, "w+k": w + k, "-k": -k, "huge": huge, "-huge": -huge}[op[3]]
                 good = op[4] % w
                 strict = (IndexError,)
                 loose = FAMILY if bad < 0 else (IndexError,)
@@ -583,6 +586,36 @@ def _interp(ops):
                     # sum() starts from the int 0: joining frames that way is a concatenation with a non-frame
                     expect_raise(lambda: sum([f]), FAMILY, f, m, out, where, "sum-of-frames")
                     expect_raise(lambda: sum([f, f]), FAMILY, f, m, out, where, "sum-of-frames")
+            elif kind == "assign":
+                # assignment to the frame's public views (as_integer, as_byte_sequence, pack, ...): where a view can
+                # be assigned at all, a negative, oversized or non-integer value is refused and the frame unchanged;
+                # whatever is accepted leaves a frame of the same width whose views are still one number in range
+                f, m, _ = pick(op[1])
+                w = m.w
+                k = 1 + op[3] % 300
+                v = {"neg1": -1, "neg": -k, "over": 1 << w, "over2": (1 << w) + k, "type": BAD_VALUES[k % len(BAD_VALUES)],
+                     "legal": k % (1 << w)}[op[2]]
+                views = [a for a in dir(type(f)) if not a.startswith("_")
+                         and hasattr(getattr(type(f), a, None), "__set__")]
+                for a in views:
+                    given = v
+                    if a != "as_integer" and isinstance(v, int) and 0 <= v < (1 << w):
+                        given = v.to_bytes((w + 7) // 8, "big")
+                    try:
+                        setattr(f, a, given)
+                    except Exception:  # noqa - the view is read-only, or the value was refused
+                        quick_agree(f, m, out, where + " (after refused assignment to .%s)" % a)
+                        continue
+                    if op[2] != "legal":
+                        out.append(("C05:accepted:assignment-" + op[2], "%s: .%s = %r was accepted" % (where, a, given)))
+                        break
+                    n = f.as_integer
+                    if len(f) != w or not isinstance(n, int) or not 0 <= n < (1 << w):
+                        out.append(("C05:value-left-range", "%s: after .%s = %r the frame has width %r value %r"
+                                    % (where, a, given, len(f), n)))
+                        break
+                    m.bits[:] = M.from_int(w, n).bits
+                    quick_agree(f, m, out, where + " (after accepted assignment to .%s)" % a)
             elif kind == "observe":
                 f, m, _ = pick(op[1])
                 deep_agree(f, m, out, where, touched[-4:])
